@@ -222,12 +222,12 @@ func (g *DirectedMatrix) setWeightedEdge(e graph.Edge, weight float64) {
 	if int64(int(tid)) != tid {
 		panic("simple: unavailable to node ID for dense graph")
 	}
+	// fid and tid are not greater than maximum int by this point.
+	g.mat.Set(int(fid), int(tid), weight)
 	if g.nodes != nil {
 		g.nodes[fid] = from
 		g.nodes[tid] = to
 	}
-	// fid and tid are not greater than maximum int by this point.
-	g.mat.Set(int(fid), int(tid), weight)
 }
 
 // To returns all nodes in g that can reach directly to n.
